@@ -447,6 +447,63 @@ def exec_for_inv(P, st, seq, spec):
 
 
 # --------------------------------------------------------------------------- comprehensions
+def _hoist_heap_reads(P, e, g, snapshot):
+    """-> a copy of the comprehension node whose element expression reads captured values instead of heap locations, or None when nothing was hoisted."""
+    import ast
+    import copy
+    targets = {n.id for n in ast.walk(g.target) if isinstance(n, ast.Name)}
+    inner_bound = set()
+    for part in ([e.key, e.value] if isinstance(e, ast.DictComp) else [e.elt]):
+        for n in ast.walk(part):
+            if isinstance(n, ast.Lambda):
+                inner_bound |= {a.arg for a in n.args.args + n.args.kwonlyargs + n.args.posonlyargs}
+            elif isinstance(n, (ast.ListComp, ast.SetComp, ast.DictComp, ast.GeneratorExp)):
+                for g2 in n.generators:
+                    inner_bound |= {x.id for x in ast.walk(g2.target) if isinstance(x, ast.Name)}
+            elif isinstance(n, ast.NamedExpr):
+                inner_bound.add(n.target.id)
+    new = copy.deepcopy(e)
+    count = [0]
+
+    def root(n):
+        while isinstance(n, ast.Attribute):
+            n = n.value
+        return n
+
+    class Hoist(ast.NodeTransformer):
+        def visit_Attribute(self, n):
+            r = root(n)
+            if isinstance(n.ctx, ast.Load) and isinstance(r, ast.Name) and r.id not in targets and r.id not in inner_bound:
+                try:
+                    v = P.eval(n)
+                except Exception:  # noqa: BLE001  (raises, forks badly, unsupported: leave the read where it is)
+                    return n
+                from .values import BoundMethod
+                if isinstance(v, BoundMethod) or callable(v):
+                    return n        # methods are looked up when called
+                name = f"__hoisted_read_{count[0]}"
+                count[0] += 1
+                snapshot[name] = v
+                return ast.copy_location(ast.Name(id=name, ctx=ast.Load()), n)
+            return self.generic_visit(n)
+
+        def visit_Call(self, n):
+            # the callee itself is not hoisted (a method call binds its receiver when called); its arguments are
+            if isinstance(n.func, ast.Attribute):
+                n.func.value = self.visit(n.func.value) if not isinstance(n.func.value, ast.Attribute) else Hoist.visit_Attribute(self, n.func.value)
+            else:
+                n.func = self.visit(n.func)
+            n.args = [self.visit(a) for a in n.args]
+            for k in n.keywords:
+                k.value = self.visit(k.value)
+            return n
+    if isinstance(new, ast.DictComp):
+        new.key, new.value = Hoist().visit(new.key), Hoist().visit(new.value)
+    else:
+        new.elt = Hoist().visit(new.elt)
+    return new if count[0] else None
+
+
 def comprehension(P, e, kind):
     from . import models
     gens = e.generators
@@ -484,6 +541,10 @@ def comprehension(P, e, kind):
         if gi != len(gens) - 1:
             raise Unsupported("nested comprehension over symbolic sequence")
         snapshot = dict(cfr.locals)
+        # The elements are built lazily (at the index they are asked for), but Python builds them all here and now: what the element expression reads
+        # from the heap must be read now.  Attribute chains rooted at a name other than the loop target (`self.current`, `node.lineno`, ...) are
+        # evaluated at this point and the element expression refers to the captured values.
+        hoisted = _hoist_heap_reads(P, e, g, snapshot)
         if not g.ifs:
             def at(i, seq=seq):
                 f2 = Frame(cfr.func, cfr.module, cfr.parent_env)
@@ -491,6 +552,8 @@ def comprehension(P, e, kind):
                 P.frames.append(f2)
                 try:
                     P.assign(g.target, P.seq_at(seq, i))
+                    if hoisted is not None:
+                        return (P.eval(hoisted.key), P.eval(hoisted.value)) if kind == "dict" else P.eval(hoisted.elt)
                     return elt_value()
                 finally:
                     P.frames.pop()
